@@ -154,3 +154,71 @@ class DataOp(Command):
     def execute(self, **kwargs):
         EXEC_LOG.append(self.result_name)
         return ("dataop", self.result_name, tuple((k, _val(kwargs[k])) for k in sorted(kwargs) if k != "Metadata"))
+
+
+ODD_PRODUCED = {}
+ODD_RECEIVED = {}
+
+
+def _odd(kind):
+    if kind == "generator":
+        return (v * 2 for v in (1, 2, 3))
+    if kind == "generator-function-call":
+        def rows():
+            yield 1
+            return "done"
+        return rows()
+    if kind == "iterator":
+        return iter([1, 2, 3])
+    if kind == "map":
+        return map(str, (1, 2))
+    if kind == "dict":
+        return {"a": 1}
+    if kind == "callable":
+        return lambda: 7
+    if kind == "class":
+        return dict
+    if kind == "empty-list":
+        return []
+    if kind == "empty-tuple":
+        return ()
+    if kind == "zero":
+        return 0
+    if kind == "empty-string":
+        return ""
+    if kind == "false":
+        return False
+    if kind == "command-class":
+        return Command
+    if kind == "exception-object":
+        return ValueError("a value, not a failure")
+    if kind == "file-like":
+        import io
+        return io.StringIO("a,b\n1,2\n")
+    return None
+
+
+class OddSrc(Command):
+    """Produces, as its result, an object of the kind named by K: whatever execute() returns is the result."""
+    inputs = {"K": params.StringParameter()}
+
+    def execute(self, **kwargs):
+        EXEC_LOG.append(self.result_name)
+        obj = _odd(kwargs["K"])
+        ODD_PRODUCED[self.result_name] = obj
+        return obj
+
+
+class OddOp(Command):
+    """Takes the results of its producers as they are and notes which objects it was given."""
+    inputs = {"A": params.ResultParameter(required=False), "L": params.ListParameter(params.ResultParameter(), required=False)}
+
+    def execute(self, **kwargs):
+        EXEC_LOG.append(self.result_name)
+        got = []
+        if "A" in kwargs:
+            got.append((kwargs["A"].result_name, kwargs["A"].result))
+        for c in kwargs.get("L", []):
+            got.append((c.result_name, c.result))
+        ODD_RECEIVED[self.result_name] = got
+        return ("oddop", self.result_name)
